@@ -31,6 +31,18 @@ def calculate_HIGC(
     # Determine HIGC
     # Total yield_ formation days
     tHI = crop_YldFormCD
+    # The search below converges only if there is at least a day of yield
+    # formation (and the harvest indices are positive): otherwise the
+    # estimate never moves and the loop would not end
+    if tHI <= 0:
+        raise ValueError(
+            "The crop calendar leaves no day for yield formation "
+            + "(length of the yield formation period: " + str(tHI) + " days)."
+        )
+    if crop_HI0 <= 0:
+        raise ValueError("The reference harvest index (HI0) must be positive.")
+    if crop_HIini <= 0:
+        raise ValueError("The initial harvest index (HIini) must be positive.")
     # Iteratively estimate HIGC
     HIGC = 0.001
     HIest = 0
